@@ -13,7 +13,9 @@ LEVEL_TEXT = ("Unbounded proof: for every well-formed descriptor (any number of 
               "name of any number of non-empty '/'-free segments) the modelled decompiler get_type returns the primitive "
               "keyword or the dotted class name, with the java.lang. prefix dropped exactly for direct members of "
               "java.lang, followed by one [] per dimension; the modelled dex get_type returns the fully qualified form. "
-              "Both models are compared with the real functions on every run.")
+              "Both models are compared with the real functions on every run; generated classes (fields, several fields "
+              "of one name with different types, parameters and return types over class names with '-', '$', '_' and "
+              "non-ASCII letters) are decompiled and every type in the source is compared with its descriptor.")
 LEVEL_NOTE = ("Trusted: Coq kernel; coq/Dad/TypeNameModel.v as a rendering of the two Python functions (str slicing, "
               "startswith, replace, lstrip as list functions; the size= argument is not modelled); the harness "
               "tools/props/c24.py.")
@@ -125,7 +127,8 @@ def stats(cases, results):
 
 # ---- stream 2: the types as DvClass.get_source prints them (fields, parameters, return types) ----------------------------
 SRC_WORDS = ["java", "lang", "String", "Object", "Long", "LinkageError", "Launcher", "List", "Integer", "I", "Z", "L", "J", "V", "Lx", "annotation",
-             "Foo$Bar", "x", "javax", "language", "util", "Iterable", "Short", "B", "Boolean", "D"]
+             "Foo$Bar", "x", "javax", "language", "util", "Iterable", "Short", "B", "Boolean", "D",
+             "-$$Lambda$Main$1", "-Util", "package-info", "my-app", "a_b", "\u00e9t\u00e9", "I-J", "Z9", "$", "_"]
 
 
 def _src_type(rng, void_ok=False):
@@ -147,6 +150,15 @@ def gen_source(rng, tier, ctx):
                                                                   ("V", ["Ljava/lang/LinkageError;", "J", "[D"], False)])]
     for _ in range(120 if tier == "thorough" else 25):
         fields = [(_src_type(rng), rng.random() < 0.4) for _ in range(rng.randint(0, 6))]
+        if fields and rng.random() < 0.4:          # several fields of one name (legal in DEX; obfuscators overload names by type)
+            names, seen = [], set()
+            for t, st in fields:
+                nm = rng.randrange(2)
+                while (nm, t) in seen:
+                    nm += 1
+                seen.add((nm, t))
+                names.append(nm)
+            fields = [(t, st, nm) for (t, st), nm in zip(fields, names)]
         methods = []
         for _ in range(rng.randint(1, 6)):
             ret = _src_type(rng, void_ok=True)
@@ -165,8 +177,9 @@ def impl_source(case):
     fields, methods = case
     b = DexBuilder()
     c = b.add_class("Lgen/T;", access=0x401)
-    for k, (t, st) in enumerate(fields):
-        c.add_field("f%d" % k, t, access=9 if st else 1, static=st)
+    for k, f in enumerate(fields):
+        t, st = f[:2]
+        c.add_field("f%d" % (f[2] if len(f) > 2 else k), t, access=9 if st else 1, static=st)
     for k, (ret, params, abstract) in enumerate(methods):
         if abstract:
             c.add_method("m%d" % k, ret, params, access=0x401, direct=False, code=None)
@@ -177,11 +190,13 @@ def impl_source(case):
     dx = Analysis(d)
     d.set_decompiler(DecompilerDAD(d, dx))
     src = d.get_class("Lgen/T;").get_source()
-    fs = dict((int(k), t) for t, k in re.findall(r"^\s+(?:public |static )+(\S+) f(\d+);$", src, re.M))
+    fs = {}
+    for t, k in re.findall(r"^\s+(?:public |static )+(\S+) f(\d+);$", src, re.M):
+        fs.setdefault(int(k), []).append(t)
     ms = {}
     for ret, k, ps in re.findall(r"^\s+(?:public |static |abstract )+(\S+) m(\d+)\((.*)\)", src, re.M):
         ms[int(k)] = [ret, [q.rsplit(" ", 1)[0] for q in ps.split(", ")] if ps else []]
-    return [[fs.get(k) for k in range(len(fields))], [ms.get(k) for k in range(len(methods))]]
+    return [sorted(fs.items()), [ms.get(k) for k in range(len(methods))]]
 
 
 def _java_names(desc):
@@ -200,9 +215,16 @@ def oracle_source(case, res):
     if isinstance(res, Err):
         return "decompiling the generated class failed: %s %s" % (res.name, res.msg[:150])
     fields, methods = case
-    for k, (t, st) in enumerate(fields):
-        if res[0][k] not in _java_names(t):
-            return "field f%d of type %r is declared as %r; its Java name is %s" % (k, t, res[0][k], " or ".join(sorted(_java_names(t))))
+    printed = dict((k, list(v)) for k, v in res[0])
+    for k, f in enumerate(fields):
+        t = f[0]
+        nm = f[2] if len(f) > 2 else k
+        hit = [g for g in printed.get(nm, []) if g in _java_names(t)]
+        if not hit:
+            return "field f%d of type %r is declared as %r; its Java name is %s" % (nm, t, printed.get(nm), " or ".join(sorted(_java_names(t))))
+        printed[nm].remove(hit[0])
+    if any(printed.values()):
+        return "the source declares fields the class does not have: %r" % ({k: v for k, v in printed.items() if v},)
     for k, (ret, params, abstract) in enumerate(methods):
         got = res[1][k]
         if got is None:
